@@ -158,7 +158,11 @@ def main(argv):
     # model comparison through dedicated runs (records the events before the follow-up call)
     lines, metas = [], []
     cdescs = [("get", {"op": "get", "k": "a"}, lambda o: o.get("a", default=DEFAULT)), ("gets", {"op": "gets", "k": "a"}, lambda o: o.gets("a", default=DEFAULT, cas_default=CASDEFAULT)),
-              ("get_many", {"op": "get_many", "ks": ["a", "b"]}, lambda o: o.get_many(["a", "b"])), ("gats", {"op": "gats", "k": "a", "e": 0}, lambda o: o.gats("a", 0, default=DEFAULT, cas_default=CASDEFAULT))]
+              ("get_many", {"op": "get_many", "ks": ["a", "b"]}, lambda o: o.get_many(["a", "b"])), ("gats", {"op": "gats", "k": "a", "e": 0}, lambda o: o.gats("a", 0, default=DEFAULT, cas_default=CASDEFAULT)),
+              # the two administrative operations that go through `_fetch_cmd`, hence obey ignore_exc: stats -> {} on failure, cache_memlimit -> True
+              ("stats", {"op": "stats"}, lambda o: o.stats()), ("stats-items", {"op": "stats", "args": ("items",)}, lambda o: o.stats("items")),
+              ("stats-cachedump", {"op": "stats", "args": ("cachedump", "1", "0")}, lambda o: o.stats("cachedump", "1", "0")),
+              ("cache_memlimit", {"op": "cache_memlimit", "m": 64}, lambda o: o.cache_memlimit(64))]
     for name, cdesc, inv in cdescs:
         for plan in plans:
             if plan.get("bad_serde"):
